@@ -90,6 +90,15 @@ MUTANTS = [
     ('c02-outputs-last', 'malt/converters/control_flow.py',
      'key=lambda v: (v in input_only, v))', 'key=lambda v: (v not in input_only, v))',
      ['malt.converters.control_flow.ControlFlowTransformer._get_block_vars']),
+    ('c11-namer-forgets-generated', 'malt/pyct/naming.py',
+     'new_name in all_reserved_locals or new_name in self.generated_names):', 'new_name in all_reserved_locals):',
+     ['malt.pyct.naming.Namer.new_symbol']),
+    ('c11-namer-qn-not-flattened', 'malt/pyct/naming.py', 'all_reserved_locals.update(s.qn)',
+     'all_reserved_locals.add(s)', ['malt.pyct.naming.Namer.new_symbol']),
+    ('c11-namer-ignores-namespace', 'malt/pyct/naming.py', 'while (new_name in self.global_namespace or',
+     'while (False or', ['malt.pyct.naming.Namer.new_symbol']),
+    ('c11-namer-does-not-record', 'malt/pyct/naming.py', '    self.generated_names.add(new_name)', '    pass',
+     ['malt.pyct.naming.Namer.new_symbol']),
 ]
 
 DRIVER = r'''
